@@ -37,6 +37,10 @@ var Catalogue = []string{
 	"Mkdir:existing-accepted", "Remove:nonempty-accepted", "OpenFile:missing-created",
 	// wrong error path
 	"Open:error-path", "Stat:error-path", "Mkdir:error-path", "Remove:error-path", "Rename:error-paths",
+	// run with Constraints.AllowErrPathPrefix (suffix "@prefix"): a prefix ending at an element boundary is
+	// allowed there (the reference "ref:prefixed-paths@prefix" has one), one glued onto the name is not
+	// (no scenario looks at the path of a Stat error for a valid name, so there is no Stat entry)
+	"Open:error-path-glued@prefix", "Mkdir:error-path-glued@prefix", "Remove:error-path-glued@prefix",
 	// EOF
 	"file.Read:eof-early", "file.ReadAt:missing-eof", "file.Read:short-forever",
 	// correct when called alone, wrong only while another call is in flight (the verdict must not depend
@@ -140,6 +144,10 @@ func (f *FS) OpenFile(name string, flag int, perm hackpadfs.FileMode) (hackpadfs
 			err = reKind(err, hackpadfs.ErrNotExist)
 		case f.is("Open:error-path"):
 			err = rePath(err, "x/"+name)
+		case f.is("ref:prefixed-paths") && hackpadfs.ValidPath(name):
+			err = rePath(err, "mnt/"+name)
+		case f.is("Open:error-path-glued") && hackpadfs.ValidPath(name):
+			err = rePath(err, "mnt"+name)
 		}
 		return nil, err
 	}
@@ -183,6 +191,10 @@ func (f *FS) Mkdir(name string, perm hackpadfs.FileMode) error {
 		err = reKind(err, hackpadfs.ErrExist)
 	case f.is("Mkdir:error-path"):
 		err = rePath(err, "x/"+name)
+	case f.is("ref:prefixed-paths") && hackpadfs.ValidPath(name):
+		err = rePath(err, "mnt/"+name)
+	case f.is("Mkdir:error-path-glued") && hackpadfs.ValidPath(name):
+		err = rePath(err, "mnt"+name)
 	}
 	return err
 }
@@ -233,6 +245,10 @@ func (f *FS) Remove(name string) error {
 		err = reKind(err, hackpadfs.ErrPermission)
 	case f.is("Remove:error-path"):
 		err = rePath(err, "x/"+name)
+	case f.is("ref:prefixed-paths") && hackpadfs.ValidPath(name):
+		err = rePath(err, "mnt/"+name)
+	case f.is("Remove:error-path-glued") && hackpadfs.ValidPath(name):
+		err = rePath(err, "mnt"+name)
 	}
 	return err
 }
@@ -338,6 +354,10 @@ func (f *FS) Stat(name string) (hackpadfs.FileInfo, error) {
 			err = reKind(err, hackpadfs.ErrInvalid)
 		case f.is("Stat:error-path"):
 			err = rePath(err, "x/"+name)
+		case f.is("ref:prefixed-paths") && hackpadfs.ValidPath(name):
+			err = rePath(err, "mnt/"+name)
+		case f.is("Stat:error-path-glued") && hackpadfs.ValidPath(name):
+			err = rePath(err, "mnt"+name)
 		}
 		return nil, err
 	}
